@@ -156,12 +156,16 @@ def run(ctx):
         rep.evaluations += 1
         return
 
-    n = 150 if tier == "quick" else 6000
+    n = 120 if tier == "quick" else 6000
     cases = []
     for k in range(n):
-        cases.append(env.case(want_valid=(k % 3 == 0)))
+        cases.append(env.case(want_valid=(k % 2 == 0)))
+    # every output-shape mutation, at every run
+    for k in range(env.N_SHAPES):
+        for _ in range(2 if tier == "quick" else 40):
+            cases.append(env.shape_case(k))
     # corpus
-    limit = 3000 if tier == "quick" else 10 ** 9
+    limit = 10 ** 9
     for name, prog, refs in G.file_cases(tier, env, limit):
         for fl in ([F["DONT_VALIDATE_SIGNATURE"], env.mempool_mode | F["DONT_VALIDATE_SIGNATURE"]] if tier == "quick" or len(prog) > 100000
                    else [F["DONT_VALIDATE_SIGNATURE"], env.mempool_mode | F["DONT_VALIDATE_SIGNATURE"],
@@ -197,7 +201,7 @@ def run(ctx):
         if len(f) != 3:
             continue
         d1, d2 = G.parse_ok(f[0]), G.parse_ok(f[1])
-        if not (d1 or d2) or c["max_cost"] != G.BLOCK:
+        if not (d1 or d2) or c["max_cost"] not in (G.BLOCK, G.SMALL_LIMIT):
             continue
         if not rng.chance(1, 3 if tier == "quick" else 2):
             continue
